@@ -43,7 +43,7 @@ Record policy := mkPol {
   p_public : bool }.
 Record conf := mkConf {
   c_dur_live : kv; c_cap_live : Z; c_dur_non : kv; c_cap_non : Z;
-  c_workers : N; c_policy : policy; c_geo_cc : kv; c_geo_asn : kv }.
+  c_workers : Z; c_policy : policy; c_geo_cc : kv; c_geo_asn : kv }.
 
 Definition type_error (k : kv) : bool := match k with Malformed => true | _ => false end.
 Definition int_of (k : kv) : N := match k with Valid n => n | _ => 0 end.
@@ -80,7 +80,7 @@ Definition parse_config (f : file) : res conf :=
       then Err EType
       else bind (parse_blocklists r) (fun p =>
            Ok (mkConf (r_dur_live r) (z_of (r_cap_live r)) (r_dur_non r) (z_of (r_cap_non r))
-                      (int_of (r_workers r)) p (r_geo_cc r) (r_geo_asn r)))
+                      (z_of (r_workers r)) p (r_geo_cc r) (r_geo_asn r)))
   end.
 
 (* ---------- policy decisions ---------- *)
@@ -120,18 +120,28 @@ Definition geo_ok (cc asn : kv) : bool :=
   end.
 
 (* ---------- RegistrationManager ---------- *)
-Record manager := mkMgr { m_policy : policy; m_sel : list N; m_tester : tester }.
+(* m_pipe: the job buffer of the ingest pipeline (RegistrationManager.ingestChan): None = nil channel
+   (HandleRegUpdates not launched yet), Some c = a channel of capacity c *)
+Record manager := mkMgr { m_policy : policy; m_sel : list N; m_tester : tester; m_workers : Z; m_pipe : option N }.
 
 Definition new_manager (c : conf) (s : subfile) : res manager :=
   bind (new_tester c) (fun t =>                              (* error: logger.Fatal *)
   match s with
-  | SubOk g => if geo_ok (c_geo_cc c) (c_geo_asn c) then Ok (mkMgr (c_policy c) g t)
+  | SubOk g => if geo_ok (c_geo_cc c) (c_geo_asn c) then Ok (mkMgr (c_policy c) g t (c_workers c) None)
                else Err EGeoIP                              (* returns nil *)
   | _ => Err ENoSelector                                    (* returns nil *)
   end).
 
 Definition start (f : file) (s : subfile) : res manager :=
   bind (parse_config f) (fun c => new_manager c s).
+
+(* HandleRegUpdates (main.go: `go regManager.HandleRegUpdates(...)`): a non-positive ingest_worker_count means
+   the default of 300 workers (fixed code: negative counts used to reach make(chan, negative)); the job buffer
+   holds workers/10 messages -- capacity 0 for 1..9 workers *)
+Definition defaultWorkerCount : Z := 300.
+Definition pipe_cap (w : Z) : N := Z.to_N ((if (w <=? 0)%Z then defaultWorkerCount else w) / 10).
+Definition launch (m : manager) : manager :=
+  mkMgr (m_policy m) (m_sel m) (m_tester m) (m_workers m) (Some (pipe_cap (m_workers m))).
 
 (* ---------- statistics printers ---------- *)
 (* a method call on an interface value: nil interface = panic *)
@@ -150,7 +160,13 @@ Definition print_tester (t : tester) : res unit :=
 (* RegistrationManager.PrintAndReset: registeredDecoys is never nil (constructor),
    len/cap of the nil ingestChan are 0, the ratios are float divisions.
    ZMQIngester / ProxyStats / RegistrationStats: atomics and float arithmetic only. *)
-Definition print_manager (m : manager) : res unit := Ok tt.
+(* a ratio printed with %.3f: float division, NaN/Inf for a zero denominator, never a panic;
+   the same ratio in integer arithmetic panics on a zero denominator *)
+Definition float_ratio (l c : N) : res unit := Ok tt.
+Definition int_ratio (l c : N) : res unit := if c =? 0 then Panic else Ok tt.
+(* reg-buf-stats: len(ingestChan) / cap(ingestChan); len and cap of a nil channel are 0 *)
+Definition print_manager (m : manager) : res unit :=
+  match m_pipe m with None => float_ratio 0 0 | Some c => float_ratio 0 c end.
 Definition print_zmq : res unit := Ok tt.
 Definition print_proxy : res unit := Ok tt.
 Definition print_regstats : res unit := Ok tt.
@@ -167,7 +183,7 @@ Definition expiry (m : manager) : res unit := Ok tt.      (* RemoveOldRegistrati
 Definition on_reload_conf (m : manager) (c : conf) (s : subfile) : manager :=
   mkMgr (c_policy c)
         (match s with SubOk g => g | _ => m_sel m end)       (* selector kept on error *)
-        (m_tester m).
+        (m_tester m) (m_workers m) (m_pipe m).
 Definition on_reload (m : manager) (f : file) (s : subfile) : res manager :=
   match parse_config f with
   | Ok c => Ok (on_reload_conf m c s)
